@@ -12,6 +12,7 @@ import os
 import re
 import shutil
 import subprocess
+import tempfile
 import sys
 import time
 
@@ -542,3 +543,23 @@ def _crash_summary(log):
         if m:
             return m.group(0)[:300]
     return log[-300:]
+
+# --------------------------------------------------------------------------------------
+# Apalache (symbolic): inductive invariants for small specs over unbounded data
+# --------------------------------------------------------------------------------------
+def apalache(spec_path, inv, init="Init", length=1, cinit=None, outdir=None, timeout=900):
+    """returns "ok" (no error up to `length`), "violated", or raises InfraError"""
+    outdir = outdir or tempfile.mkdtemp(prefix="apa.", dir=OUT if os.path.isdir(OUT) else None)
+    cmd = ["timeout", str(timeout), "apalache-mc", "check", "--out-dir=" + outdir, "--init=" + init, "--inv=" + inv,
+           "--length=%d" % length]
+    if cinit:
+        cmd.append("--cinit=" + cinit)
+    cmd.append(spec_path)
+    p = subprocess.run(cmd, cwd=os.path.dirname(spec_path), stdout=subprocess.PIPE, stderr=subprocess.STDOUT)
+    out = p.stdout.decode("utf-8", "replace")
+    shutil.rmtree(outdir, ignore_errors=True)
+    if "EXITCODE: OK" in out:
+        return "ok"
+    if "EXITCODE: ERROR (12)" in out:
+        return "violated"
+    raise InfraError("apalache failed on %s / %s:\n%s" % (spec_path, inv, out[-2500:]))
